@@ -13,6 +13,7 @@ import (
 	"gitee.com/Trisia/gotlcp/tlcp"
 	"gitee.com/Trisia/gotlcp/vs"
 
+	"verifsim/peer"
 	"verifsim/ref"
 	"verifsim/simnet"
 )
@@ -34,6 +35,11 @@ type c04Params struct {
 	S2C2       []int  `json:"s2c_resumed"`
 	VecParams  bool   `json:"vec_params"`
 	PMTU       int    `json:"pmtu,omitempty"` // datagram stack: path MTU of both ends (0 = default; small values fragment the flights)
+	// Foreign: one end (ForeignRole: which role the library plays) talks to the independent reference endpoint
+	// instead of another copy of the library: that endpoint picks its own explicit GCM nonces (random, not the
+	// sequence number) and pads its CBC records with extra blocks; handshake and data in both directions must work
+	Foreign     bool   `json:"foreign,omitempty"`
+	ForeignRole string `json:"foreign_role,omitempty"`
 }
 
 func (c04) ID() string    { return "C04" }
@@ -90,6 +96,10 @@ func drawC04(src *vs.Src) *c04Params {
 	p.C2S2, p.S2C2 = drawSizes(src, 3, max/4), drawSizes(src, 3, max/4)
 	if p.Stack == DTLCP {
 		p.PMTU = pickInt(src, []int{0, 0, 576, 300, 200})
+	}
+	if p.Stack == TLCP && src.Bool(1, 4) {
+		p.Foreign, p.ForeignRole = true, pickStr(src, []string{"client", "server"})
+		p.C2S, p.S2C = drawSizes(src, 4, 4000), drawSizes(src, 4, 4000) // C2S: what the library writes, S2C: what it is sent
 	}
 	return p
 }
@@ -187,6 +197,9 @@ func (c04) Run(c *Case, src *vs.Src) *Result {
 		p = drawC04(src)
 	}
 	r.Sample = p
+	if p.Foreign {
+		return c04Foreign(c, src, p, r)
+	}
 	cc := &EPConf{Suites: []uint16{p.Suite}, ServerName: "server.test", Cache: "c", VecParams: p.VecParams, PMTU: p.PMTU}
 	sc := &EPConf{Suites: []uint16{p.Suite}, Certs: []string{"server_sig", "server_enc"}, Cache: "s", PMTU: p.PMTU}
 	if p.ClientAuth || IsECDHE(p.Suite) {
@@ -555,4 +568,115 @@ func c04RandFailProbe(c *Case, src *vs.Src, p *c04Params, env *Env, cc, sc *EPCo
 		r.Violate("nonce-reuse", sigp+" iv-reuse-after-rand-failure", "after Config.Rand began to fail, %d Writes succeeded and %d failed; on the wire: %s", wrote, failed, e)
 	}
 	r.Stat("rand_fail_probe", 1)
+}
+
+// c04Foreign: the library against the independent reference endpoint (stream stack).
+func c04Foreign(c *Case, src *vs.Src, p *c04Params, r *Result) *Result {
+	sigp := fmt.Sprintf("C04 tlcp %s foreign-peer library=%s", SuiteName(p.Suite), p.ForeignRole)
+	pj, _ := json.Marshal(p)
+	r.Key = hashKey(string(pj))
+	w := NewWorld(c.Seed, src)
+	w.K.MaxElapsed = 60 * time.Second
+	env := NewEnv(w)
+	realIsClient := p.ForeignRole == "client"
+	o := &peer.Opts{Suites: []uint16{p.Suite}}
+	var rc *EPConf
+	var script []string
+	if realIsClient {
+		rc = &EPConf{Suites: []uint16{p.Suite}, ServerName: "server.test", Certs: []string{"client_sig", "client_enc"}}
+		o.Certs, o.SigKey, o.EncKey, o.CAs = ders("server_sig", "server_enc"), sm2Key("server_sig"), sm2Key("server_enc"), subjects("ca1")
+		script = []string{"rCH", "SH", "CERT", "SKX"}
+		if IsECDHE(p.Suite) {
+			script = append(script, "CR")
+		}
+		script = append(script, "SHD", "rFLIGHT", "CCS", "FIN")
+	} else {
+		rc = &EPConf{Suites: []uint16{p.Suite}, Certs: []string{"server_sig", "server_enc"}, ClientCAs: []string{"ca1"}}
+		o.SNI = "server.test"
+		script = []string{"CH", "rFLIGHT"}
+		if IsECDHE(p.Suite) {
+			o.Certs, o.SigKey = ders("client_sig", "client_enc"), sm2Key("client_sig")
+			script = append(script, "CERT", "CKE", "CV")
+		} else {
+			script = append(script, "CKE")
+		}
+		script = append(script, "CCS", "FIN", "rFLIGHT")
+	}
+	h := NewHalf(TLCP, env, rc, realIsClient, "real")
+	if realIsClient {
+		h.Peer.OwnEncKey = sm2Key("server_enc")
+	} else {
+		h.Peer.OwnEncKey = sm2Key("client_enc")
+	}
+	h.Peer.RandNonce = true
+	toReal := mkPayloads(src, p.S2C, 7)
+	fromReal := mkPayloads(src, p.C2S, 8)
+	var hsErr, rdErr, wrErr error
+	var got []byte
+	var peerNote string
+	var peerOut *peer.Outcome
+	w.Go("real", func() {
+		defer h.Real.Close()
+		if hsErr = h.Real.Handshake(); hsErr != nil {
+			return
+		}
+		got, rdErr = readFull(h.Real, len(cat(toReal)))
+		if rdErr != nil {
+			return
+		}
+		for _, b := range fromReal {
+			if _, wrErr = h.Real.Write(b); wrErr != nil {
+				return
+			}
+		}
+	})
+	w.Go("peer", func() {
+		defer h.ClosePeerSide()
+		peerOut = h.Peer.Run(o, script)
+		if peerOut.Err != nil || !peerOut.Completed {
+			peerNote = fmt.Sprintf("handshake: completed=%v finished-ok=%v stopped at %q: %v", peerOut.Completed, peerOut.FinishedOK, peerOut.StoppedAt, peerOut.Err)
+			return
+		}
+		h.Peer.SetWritePad(3)
+		for _, b := range toReal {
+			if err := h.Peer.SendApp(b); err != nil {
+				peerNote = "send: " + err.Error()
+				return
+			}
+		}
+		want := len(cat(fromReal))
+		for n := 0; n < want; {
+			before := len(h.Peer.AppData)
+			out := h.Peer.Run(o, []string{"rAPP"})
+			for _, d := range h.Peer.AppData[before:] {
+				n += len(d)
+			}
+			if out.Err != nil && n < want {
+				peerNote = fmt.Sprintf("reading the library's data (%d of %d bytes so far): %v", n, want, out.Err)
+				return
+			}
+		}
+	})
+	reason, unf := w.Run()
+	w.Finish(r, sigp)
+	r.Outcome = reason
+	if reason != vs.Done {
+		r.Violate("not-ended", sigp+" not-ended "+reason, "run ended with %q, unfinished %v; library handshake %v, reference endpoint: %s", reason, unf, hsErr, peerNote)
+		return r
+	}
+	if hsErr != nil || peerNote != "" && peerOut != nil && !peerOut.Completed {
+		r.Violate("interop", sigp+" handshake-failed", "handshake between the library and the reference endpoint failed: library %v; reference endpoint %s", hsErr, peerNote)
+		return r
+	}
+	if !peerOut.FinishedOK {
+		r.Violate("interop", sigp+" finished-mismatch", "the library's Finished does not match the reference endpoint's transcript and master secret")
+	}
+	if rdErr != nil || !bytes.Equal(got, cat(toReal)) {
+		r.Violate("interop", sigp+" records-not-opened", "the library read %d of the %d bytes the reference endpoint sent in %d records (error %v)", len(got), len(cat(toReal)), len(toReal), rdErr)
+	}
+	if wrErr != nil || peerNote != "" || !bytes.Equal(cat(h.Peer.AppData), cat(fromReal)) {
+		r.Violate("interop", sigp+" records-not-readable", "the reference endpoint could not read what the library wrote: write error %v; %s; %d of %d bytes", wrErr, peerNote, len(cat(h.Peer.AppData)), len(cat(fromReal)))
+	}
+	r.Stat("foreign_peer_runs", 1)
+	return r
 }
